@@ -323,14 +323,22 @@ fn run_case(case: &J) -> J {
                             Some((0, t, nreq)) => {
                                 let after = marks_of_others(&t, &qid, &obs.id);
                                 if after < before {
-                                    // did the marks reach q at all?  q's own final data carries marks of other peers that q
-                                    // cannot execute with what it knows (its data is stable: the history is quiescent)
+                                    // did the marks reach q at all?  per sender p: q's own final data carries at least as many
+                                    // marks of p as q takes over from the merged data, and q cannot execute them with what
+                                    // it knows (its own data is stable: the history is quiescent)
+                                    let mm = marks(&tm);
+                                    let ma = marks(&t);
+                                    let mo = oracles::trace_of(&net.hosts[q].prev).map(|t| marks(&t)).unwrap_or_default();
+                                    let delivered = mm.iter().filter(|(p, _)| p.as_str() != qid && p.as_str() != obs.id).all(|(p, n)| {
+                                        let taken = n.saturating_sub(ma.get(p).cloned().unwrap_or(0));
+                                        taken <= mo.get(p).cloned().unwrap_or(0)
+                                    });
                                     let own = oracles::trace_of(&net.hosts[q].prev).map(|t| marks_of_others(&t, &qid, &obs.id)).unwrap_or(0);
                                     let own_stable = match probe(&net, q, &net.hosts[q].prev) {
                                         Some((0, t2, _)) => marks_of_others(&t2, &qid, &obs.id) == own,
                                         _ => false,
                                     };
-                                    let key = if own >= before - after && own_stable { "forwarded-before-arguments-known" } else { "sent-but-unexecuted-at-quiescence" };
+                                    let key = if delivered && own_stable { "forwarded-before-arguments-known" } else { "sent-but-unexecuted-at-quiescence" };
                                     failures.push(oracles::fail("C19", net.step, format!(
                                         "after every particle and call result was delivered, {} call(s)/canon(s) executable at {} given the merged data are still only marked as sent by other peers (the probe issues requests for {:?}; {} such mark(s) are in {}'s own final data)",
                                         before - after, net.hosts[q].peer.name, nreq, own, net.hosts[q].peer.name), key));
